@@ -464,6 +464,8 @@ func main() {
 					i = strings.Index(s, "\n") // after package line? crude
 				}
 				s = s[:i] + "\nimport vsched \"" + shim + "\"\n" + s[i:]
+				// a rewritten file may use the shim through method calls only: keep the import used
+				s += "\nvar _ = vsched.Aborting\n"
 				out = []byte(s)
 			}
 			// drop unused imports of time/io if they became unused: handled by adding blank uses
